@@ -16,7 +16,7 @@ import extract  # noqa
 # --------------------------------------------------------------------------
 # unit metadata (header directives shared by both engines)
 
-META_KEYS = ('unit', 'props', 'strength', 'assume', 'unverified', 'min-verified', 'module', 'note', 'twin')
+META_KEYS = ('unit', 'props', 'strength', 'assume', 'unverified', 'min-verified', 'module', 'note', 'twin', 'rlimit')
 
 
 def read_meta(path):
@@ -110,7 +110,8 @@ def run_verus_unit(meta, repo=REPO, timeout=600, rlimit=None):
     res['drops_detail'] = len(g['drops'])
     res['assumptions_scan'] = scan_assumptions(g['text'])
     res['clauses'] = count_clauses(g['text'])
-    cmd = ['verus', gen_path, '--output-json', '--time', '--multiple-errors', '8']
+    cmd = ['verus', gen_path, '--output-json', '--time', '--multiple-errors', '8', '--triggers-mode', 'silent']
+    rlimit = rlimit or meta.get('rlimit')
     if rlimit:
         cmd += ['--rlimit', str(rlimit)]
     try:
